@@ -26,7 +26,7 @@ import (
 // a hang violation for exactly that history and starts a new child.
 const (
 	workerEnv = "VERIF_C18_WORKER"
-	cpuLimit  = 500 * time.Millisecond // a normal replay costs ~20-100us
+	cpuLimit  = 150 * time.Millisecond // process CPU time, load independent; a normal replay costs ~20-100us
 	wallLimit = 30 * time.Second       // only reachable by a deadlock
 	heapLimit = 1 << 30
 	recycle   = 40000 // requests per child (bounds goroutines leaked by the library)
